@@ -4,7 +4,9 @@
 (*   {"case", "cls", "leaf", "mleaf" (real names of l and m), "checkfresh": bool,                            *)
 (*    "clsof": {obj: class}, "has": {obj: {leaf: bool}}, "fhas": {family: {leaf: bool}},                     *)
 (*    "def0": {family: {leaf: val}},  "init": <state>,                                                       *)
+(*    "kids": {obj: [obj]} (children of the collections among the objects),                                  *)
 (*    "steps": [{"tid", "op", "tgt", "src", "l", "v", "kw": {leaf: val}, "badname": bool, "notation",        *)
+(*               "asg": {leaf: val}, "rec": bool, "argchanged": bool (SetKids),                              *)
 (*               "outcome": "ok" | "raise", "post": <state>, "res": {obj: {leaf: val}}, "reserr"}]}          *)
 (*   <state> = {"objVal": {obj: {leaf: val}}, "def": {family: {leaf: val}}}                                  *)
 (* Abstract leaves: "l" (the real leaf under test), "m" (a sibling leaf), "rest" (digest of all other real   *)
@@ -17,8 +19,10 @@ VARIABLE x
 Trace == ndJsonDeserialize(IOEnv.TRACE_FILE)
 
 Seqify(s) == [i \in 1..Len(s) |-> s[i]]
-CxOf(e) == [chain |-> [o \in DOMAIN e.clsof |-> ClassChain[e.clsof[o]]], has |-> e.has, fhas |-> e.fhas, def0 |-> e.def0]
-CallOf(s) == [op |-> s.op, tgt |-> s.tgt, src |-> s.src, l |-> s.l, v |-> s.v, kw |-> s.kw, badname |-> s.badname]
+CxOf(e) == [chain |-> [o \in DOMAIN e.clsof |-> ClassChain[e.clsof[o]]], has |-> e.has, fhas |-> e.fhas, def0 |-> e.def0,
+            kids |-> [o \in DOMAIN e.kids |-> Seqify(e.kids[o])]]
+CallOf(s) == [op |-> s.op, tgt |-> s.tgt, src |-> s.src, l |-> s.l, v |-> s.v, kw |-> s.kw, badname |-> s.badname,
+              asg |-> s.asg, rec |-> s.rec]
 ResLeaves == {"l", "m"}
 
 \* copy() documents that it gives the copy a new label (suffix): the label is the one leaf a copy does not carry
@@ -37,6 +41,9 @@ Verdict(pre, cx, carries, chkfresh, s) ==
       r == Apply(pre, cx, call)
   IN IF s.outcome \notin {"ok", "raise"} THEN <<"-", "Outcome">>
      ELSE IF r.ok /\ s.outcome = "raise" THEN <<"C20", "ValidRejected">>        \* a notation that does not work: not equivalent
+     \* an invalid name/value for a leaf that no member of the collection has: nothing could change, the call passes unnoticed (stricter than C20)
+     ELSE IF ~r.ok /\ s.outcome = "ok" /\ call.op = "SetKids" /\ post = pre
+             /\ (\A o \in Members(cx, call.tgt, call.rec) : \A l \in DOMAIN call.asg : ~cx.has[o][l]) THEN <<"-", "InvalidUnnoticed">>
      ELSE IF ~r.ok /\ s.outcome = "ok" THEN <<"C20", "InvalidAccepted">>
      ELSE IF ~r.ok /\ post # pre THEN <<"C20", "RejectedButChanged">>
      ELSE IF call.op = "SetObj" /\ r.ok /\ post.objVal[call.tgt][call.l] # call.v THEN <<"C20", "LastWins">>
@@ -45,9 +52,13 @@ Verdict(pre, cx, carries, chkfresh, s) ==
      ELSE IF call.op = "SetDef" /\ r.ok /\ post.def[call.tgt][call.l] # call.v THEN <<"C20", "DefLastWins">>
      ELSE IF call.op = "SetDef" /\ r.ok /\ ~OtherDefLeavesKept(pre, post, call.tgt, call.l) THEN <<"C20", "LeakDefLeaf">>
      ELSE IF call.op = "SetDef" /\ r.ok /\ ~OtherFamsKept(pre, post, call.tgt) THEN <<"C20", "LeakFamily">>
+     ELSE IF call.op = "SetKids" /\ r.ok /\ ~KidsGot(post, cx, Members(cx, call.tgt, call.rec), call.asg) THEN <<"C20", "KidsLastWins">>
+     ELSE IF call.op = "SetKids" /\ r.ok /\ ~KidsOtherLeavesKept(pre, post, cx, Members(cx, call.tgt, call.rec), call.asg) THEN <<"C20", "LeakLeaf">>
+     ELSE IF call.op = "SetKids" /\ r.ok /\ ~NonMembersKept(pre, post, Members(cx, call.tgt, call.rec)) THEN <<"C20", "LeakObject">>
+     ELSE IF call.op = "SetKids" /\ s.argchanged THEN <<"C20", "CallerDictChanged">>   \* the style dictionary handed in is the caller's
      ELSE IF call.op = "Reset" /\ post.def # cx.def0 THEN <<"C20", "ResetRestores">>
      ELSE IF call.op = "Copy" /\ ~OtherObjsKept(pre, post, call.tgt) THEN <<"C20", "LeakObject">>
-     ELSE IF call.op \in {"SetObj", "Copy", "Show"} /\ post.def # pre.def THEN <<"C20", "LeakDefaults">>
+     ELSE IF call.op \in {"SetObj", "Copy", "Show", "SetKids"} /\ post.def # pre.def THEN <<"C20", "LeakDefaults">>
      ELSE IF call.op \in {"SetDef", "Reset", "Show"} /\ post.objVal # pre.objVal THEN <<"C20", "LeakIntoObject">>
      ELSE IF \E o \in DOMAIN s.res : \E l \in ResLeaves : s.res[o][l] # Resolve(post, cx, o, l, IF r.ok THEN s.kw ELSE [k \in DOMAIN s.kw |-> Unset])
           THEN <<"C20", "Precedence">>
